@@ -12,7 +12,7 @@ CHECKS = {
  "C02": ("proof", AI + "; product symbols with quotient rule; post-conditions on path summaries", "fixed*fixed within 1 ulp or NaN (only when raw product exceeds 64 bits); fixed*integer exact or NaN; NaN exit live; no UB", "5 (C02)"),
  "C03": ("proof", AI + "; value-numbered quotient terms; post-conditions on path summaries", "b==0 gives NaN, otherwise truncated quotient with unwrapped dividend, NaN only for |a|>=2^31; fixed/integer exact for every non-zero divisor; no division trap", "5 (C03)"),
  "C04": ("proof", AI + "; region checks on returned forms", "all 8 integral carriers, both directions and the round trip, whole type ranges", "5 (C04)"),
- "C05": ("other", AI + " with exact rational forms for floating values; shape lemma on value-numbered float expressions", "NaN/range clause for float and double, fixed->double exact, fixed->float correctly rounded by shape, fixed->double->fixed identity (decided). NOT decided: half-ulp / ties-away rounding of arbitrary floating inputs", "5 (C05), 6"),
+ "C05": ("other", AI + " with exact rational forms for floating values; shape lemma on value-numbered float expressions", "NaN/range clause for float and double, fixed->double exact, fixed->float correctly rounded by shape, fixed->double->fixed identity on |x| < 2^31-1, and the half-ulp / ties-away rounding of floating->fixed by shape: every converting path is fptosi(v*65536 +- 0.5) with the offset matching the sign of the path's input range. The statement's two clauses contradict each other on 2^31-1 <= |x| < 2^31 (identity vs NaN); the library follows the NaN clause", "5 (C05), 6"),
  "C06": ("proof", AI + "; predicate refinement both ways", "six comparisons, sentinels, isnan, unary minus, abs over [-NaN,NaN]", "5 (C06)"),
  "C07": ("proof", AI + "; trap-site reachability with alarm-driven value partitioning", "every sanitizer trap site and table load reachable from any public entry point is unreachable for all inputs of the precondition box, per configuration", "3, 5 (C07)"),
  "C08": ("other", "static analysis: clang-query AST rules (constexpr closure, false const/pure attributes) over the instantiated driver TU; " + AI + "; summary equivalence of the -std=c++17 and -std=c++20 builds", "constexpr closure in K17A/K20; c++17 vs c++20 summary equivalence of every wrapper; fmuladd contraction safety; no UB (optimisation-level independence); the two sqrt algorithms differ by 0 or 1 ulp (abacus == floor(sqrt(65536 raw)) by inductive loop invariant, std within 0.5 + 2^-19 by shape lemma). Code generators trusted. 10 recorded findings (lookup-table family not constexpr)", "5 (C08), 6, 7"),
